@@ -42,59 +42,10 @@ func propC15(c *Ctx, r *Report) {
 			fmt.Sprintf("expected address %s and history rows=%v; code uses %v, history rows=%v, SubFromBalance live=%v", wantAddr, wantHist, keys(addr), gotHist, t.Live("SubFromBalance")))
 	}
 
-	// developer rewards: constant evaluation
-	r.rule("C15/dev-rewards", 4, "developer reward per table entry and totals, both eras")
+	ruleDevRewards(c, r, e, "C15/dev-rewards")
 	pcts := devPctLiterals(c)
 	dp := c.fn("node.Pegnetd.DevelopersPayouts")
-	sumPct := 0.0
-	for _, p := range pcts {
-		sumPct += p
-	}
-	r.check(len(pcts) >= 1 && math.Abs(sumPct-100) < 1e-9, "C15/dev-rewards", "developer percentages sum to 100", c.pos(dp.Pos()), fmt.Sprintf("%d entries, sum %.4f", len(pcts), sumPct), fmt.Sprintf("%d entries sum to %.6f", len(pcts), sumPct))
 	perBlock := 2000.0 * 1e8
-	for _, era := range []struct {
-		name  string
-		h     uint32
-		total uint64
-	}{{"before 2.0.2", lastPayoutBelow(e.a.get("V202EnhanceActivation")), uint64(perBlock)}, {"from 2.0.2", firstPayoutFrom(e.a.get("V202EnhanceActivation")), uint64(perBlock) * 144}} {
-		var total uint64
-		bad := ""
-		for i, p := range pcts {
-			sc := &Scenario{Params: map[string]AVal{"type:uint32": hconst(era.h)}, Paths: map[string]AVal{"node.DevReward.DevRewardPct": {K: AConst, C: constant.MakeFloat64(p)}}, MaxDepth: 1}
-			t := newSCCP(c, sc).analyse(dp, nil)
-			r.Scen++
-			calls := t.CallsTo("AddToBalance")
-			if len(calls) != 1 {
-				bad = fmt.Sprintf("entry %d: %d AddToBalance call sites live (want 1)", i, len(calls))
-				break
-			}
-			amt, ok := calls[0].Args[4].intVal()
-			tick, _ := calls[0].Args[3].intVal()
-			want := uint64(math.Round(float64(era.total) * p / 100))
-			if !ok || uint64(amt) != want {
-				bad = fmt.Sprintf("entry %d (%.2f%%): credited %s, expected %d", i, p, calls[0].Args[4], want)
-				break
-			}
-			if tick != 1 {
-				bad = fmt.Sprintf("entry %d: credited ticker %s, expected PEG", i, calls[0].Args[3])
-				break
-			}
-			// history row carries the same amount
-			for _, hc := range t.CallsTo("InsertDeveloperRewardCoinbase") {
-				if v, ok := hc.Args[6].intVal(); !ok || uint64(v) != want {
-					bad = fmt.Sprintf("entry %d: history row amount %s differs from credited %d", i, hc.Args[6], want)
-				}
-			}
-			total += uint64(amt)
-		}
-		if bad == "" && total != era.total {
-			bad = fmt.Sprintf("total credited %d, expected %d", total, era.total)
-		}
-		r.check(bad == "", "C15/dev-rewards", "developer rewards "+era.name, c.pos(dp.Pos()), fmt.Sprintf("%d credits, total %d PEG-units, each = pct x total, history row = credit", len(pcts), total), bad)
-	}
-	// exactly one AddToBalance per developer iteration: structural (one call site inside the range loop)
-	nAdd := len(findCalls(dp, "pegnet.Pegnet.AddToBalance"))
-	r.check(nAdd == 1, "C15/dev-rewards", "one credit call site in DevelopersPayouts", c.pos(dp.Pos()), "", fmt.Sprintf("%d AddToBalance call sites", nAdd))
 
 	// configuration variants: activations aligned with the 144-block cadence (the property quantifies over
 	// every alignment; mainnet's are all unaligned)
@@ -155,6 +106,36 @@ func propC15(c *Ctx, r *Report) {
 	}
 
 	r.rule("C15/no-carried-state", 1, "scheduled issuance depends on the height and the database only")
+	// the burn of the minted supply touches exactly the minted tickers: address = the mint address, ticker = the
+	// table entry's, amount = the balance read for that ticker
+	r.rule("C15/mint-burn-scope", 1, "NullifyMintedTokens debits the mint table's tickers only")
+	{
+		nm := c.fn("node.Pegnetd.NullifyMintedTokens")
+		subs := c.findCallsFam(nm, "pegnet.Pegnet.SubFromBalance")
+		var bad []string
+		if len(subs) != 1 {
+			bad = append(bad, fmt.Sprintf("%d SubFromBalance call sites", len(subs)))
+		} else {
+			a := subs[0].Common().Args
+			if typePath(a[3]) != "node.MintSupply.Ticker" {
+				bad = append(bad, "the ticker debited is not the Ticker of a mint-table entry but "+stablePath(a[3], 0)+": balances of assets that were never minted are burned as well")
+			}
+			if !sliceHas(a[2], func(v ssa.Value) bool {
+				call, ok := v.(*ssa.Call)
+				return ok && shortCallee(call.Common()) == "NewFAAddress" && valuePath(call.Call.Args[0]) == "node.GlobalMintAddress"
+			}) {
+				bad = append(bad, "the address debited is not NewFAAddress(GlobalMintAddress)")
+			}
+			lk, _ := a[4].(*ssa.Lookup)
+			if ex, ok := a[4].(*ssa.Extract); ok {
+				lk, _ = ex.Tuple.(*ssa.Lookup)
+			}
+			if lk == nil || unwrapConv(lk.Index) != unwrapConv(a[3]) || !sliceHas(lk.X, func(v ssa.Value) bool { return isCallTo(v, "SelectBalances") }) {
+				bad = append(bad, "the amount debited is not the balance read for that ticker")
+			}
+		}
+		r.check(len(bad) == 0, "C15/mint-burn-scope", "NullifyMintedTokens", c.pos(nm.Pos()), "SubFromBalance(mint address, entry.Ticker, balances[entry.Ticker]) per mint-table entry", strings.Join(bad, "; "))
+	}
 	// the statements of the scheduled adjustments can succeed: no parameter that database/sql refuses
 	ruleU64Params(c, r, "C15/statements-can-succeed", reachOf(c, "node.Pegnetd.MintTokensForBalance", "node.Pegnetd.NullifyMintedTokens", "node.Pegnetd.NullifyBurnAddress", "node.Pegnetd.DevelopersPayouts"), 3)
 	ruleNoCarriedReads(c, newSharedAnalysis(c), r, "C15/no-carried-state", reachOf(c, "node.Pegnetd.MintTokensForBalance", "node.Pegnetd.NullifyMintedTokens", "node.Pegnetd.NullifyBurnAddress", "node.Pegnetd.DevelopersPayouts"), carriedAllowedSync, "scheduled issuance")
@@ -529,4 +510,62 @@ func firstPayoutFrom(a uint32) uint32 {
 		return a
 	}
 	return a - a%144 + 144
+}
+
+// ruleDevRewards: developer reward per table entry and totals in both eras, by constant evaluation (shared with C04).
+func ruleDevRewards(c *Ctx, r *Report, e *eraCtx, rule string) {
+	// developer rewards: constant evaluation
+	r.rule(rule, 4, "developer reward per table entry and totals, both eras")
+	pcts := devPctLiterals(c)
+	dp := c.fn("node.Pegnetd.DevelopersPayouts")
+	sumPct := 0.0
+	for _, p := range pcts {
+		sumPct += p
+	}
+	r.check(len(pcts) >= 1 && math.Abs(sumPct-100) < 1e-9, rule, "developer percentages sum to 100", c.pos(dp.Pos()), fmt.Sprintf("%d entries, sum %.4f", len(pcts), sumPct), fmt.Sprintf("%d entries sum to %.6f", len(pcts), sumPct))
+	perBlock := 2000.0 * 1e8
+	for _, era := range []struct {
+		name  string
+		h     uint32
+		total uint64
+	}{{"before 2.0.2", lastPayoutBelow(e.a.get("V202EnhanceActivation")), uint64(perBlock)}, {"from 2.0.2", firstPayoutFrom(e.a.get("V202EnhanceActivation")), uint64(perBlock) * 144}} {
+		var total uint64
+		bad := ""
+		for i, p := range pcts {
+			sc := &Scenario{Params: map[string]AVal{"type:uint32": hconst(era.h)}, Paths: map[string]AVal{"node.DevReward.DevRewardPct": {K: AConst, C: constant.MakeFloat64(p)}}, MaxDepth: 1}
+			t := newSCCP(c, sc).analyse(dp, nil)
+			r.Scen++
+			calls := t.CallsTo("AddToBalance")
+			if len(calls) != 1 {
+				bad = fmt.Sprintf("entry %d: %d AddToBalance call sites live (want 1)", i, len(calls))
+				break
+			}
+			amt, ok := calls[0].Args[4].intVal()
+			tick, _ := calls[0].Args[3].intVal()
+			want := uint64(math.Round(float64(era.total) * p / 100))
+			if !ok || uint64(amt) != want {
+				bad = fmt.Sprintf("entry %d (%.2f%%): credited %s, expected %d", i, p, calls[0].Args[4], want)
+				break
+			}
+			if tick != 1 {
+				bad = fmt.Sprintf("entry %d: credited ticker %s, expected PEG", i, calls[0].Args[3])
+				break
+			}
+			// history row carries the same amount
+			for _, hc := range t.CallsTo("InsertDeveloperRewardCoinbase") {
+				if v, ok := hc.Args[6].intVal(); !ok || uint64(v) != want {
+					bad = fmt.Sprintf("entry %d: history row amount %s differs from credited %d", i, hc.Args[6], want)
+				}
+			}
+			total += uint64(amt)
+		}
+		if bad == "" && total != era.total {
+			bad = fmt.Sprintf("total credited %d, expected %d", total, era.total)
+		}
+		r.check(bad == "", rule, "developer rewards "+era.name, c.pos(dp.Pos()), fmt.Sprintf("%d credits, total %d PEG-units, each = pct x total, history row = credit", len(pcts), total), bad)
+	}
+	// exactly one AddToBalance per developer iteration: structural (one call site inside the range loop)
+	nAdd := len(findCalls(dp, "pegnet.Pegnet.AddToBalance"))
+	r.check(nAdd == 1, rule, "one credit call site in DevelopersPayouts", c.pos(dp.Pos()), "", fmt.Sprintf("%d AddToBalance call sites", nAdd))
+
 }
